@@ -168,8 +168,13 @@ def _tensor_sd(draw, dtype=None, shape=None):
     sd = {'kind': 'tensor', 'shape': shape, 'dtype': dtype,
           'weighting': None, 'exponent': 2.0}
     if np.dtype(dtype).kind in 'fc':
+        # array weightings are float64 arrays: only admissible (castable
+        # to the space dtype) for the double-precision spaces
         sd['weighting'] = draw(vs.weightings(
-            shape, ('none', 'none', 'const', 'array')))
+            shape, ('none', 'none', 'const', 'array')
+            if np.dtype(dtype).itemsize in (8, 16) and
+            np.dtype(dtype).kind != 'c' or dtype == 'complex128'
+            else ('none', 'const')))
         sd['exponent'] = draw(st.sampled_from([2.0, 2.0, 2.0, 1.0, 1.5,
                                                float('inf')]))
     return sd
@@ -241,14 +246,15 @@ def _sd_shape(sd):
     return tuple(build.space_shape(sd))
 
 
-def _with_dtype(sd, dtype):
-    """The same space descriptor with another dtype (sound weighting)."""
+def _with_dtype(sd, dtype, plain=False):
+    """The same space descriptor with another dtype (sound weighting;
+    ``plain`` drops user-given weightings altogether)."""
     if sd['kind'] == 'pspace':
         new = dict(sd)
         if sd.get('power') is not None:
-            new['base'] = _with_dtype(sd['base'], dtype)
+            new['base'] = _with_dtype(sd['base'], dtype, plain)
         else:
-            new['parts'] = [_with_dtype(p, dtype) for p in sd['parts']]
+            new['parts'] = [_with_dtype(p, dtype, plain) for p in sd['parts']]
         if np.dtype(dtype).kind not in 'fc':
             new['weighting'] = None
         return new
@@ -256,6 +262,12 @@ def _with_dtype(sd, dtype):
     if np.dtype(dtype).kind not in 'fc':
         new['weighting'] = None
         new['exponent'] = 2.0
+    elif (sd.get('weighting') or {}).get('type') == 'array' and (
+            plain or not np.can_cast('float64', dtype)):
+        # a float64 weighting array must be castable to the space dtype
+        new['weighting'] = None
+    elif plain:
+        new['weighting'] = None
     return new
 
 
@@ -378,6 +390,11 @@ def _case(draw):
     ekind = draw(st.sampled_from(EKINDS))
     if method == 'wrap':
         return draw(_wrap_case(ekind))
+    if ekind == 'pspace' and method in ('at', 'reduce', 'reduceat', 'outer') \
+            and draw(st.integers(0, 3)) != 0:
+        # power-space elements fail these methods wholesale (known finding
+        # C17-K1); keep a trickle, spend the budget where the oracle decides
+        ekind = draw(st.sampled_from(['tensor', 'discr']))
     if ekind == 'tensor':
         sd = draw(_tensor_sd())
     elif ekind == 'discr':
@@ -762,9 +779,15 @@ def _sentinel(shape, dtype, order):
 
 
 def _dtclass(in_dtype, ref_dtypes):
+    """'same' or 'chg:<kind>' ('<' appended if a floating result is of
+    lower precision than the floating input)."""
+    ind = np.dtype(in_dtype)
     for rd in ref_dtypes:
-        if np.dtype(rd) != np.dtype(in_dtype):
-            return 'chg:' + np.dtype(rd).kind
+        rd = np.dtype(rd)
+        if rd != ind:
+            narrow = (rd.kind in 'fc' and ind.kind in 'fc' and
+                      np.finfo(rd).bits < np.finfo(ind).bits)
+            return 'chg:' + rd.kind + ('<' if narrow else '')
     return 'same'
 
 
@@ -903,19 +926,22 @@ def _make_out(od, ekind, sd, x_op, shape, dtype):
     ref = _sentinel(shape, dt, od['order'])
     arr = _sentinel(shape, dt, od['order'])
     if kind == 'ndarray':
-        return arr, ref, 'ndarray'
+        return arr, ref, 'ndarray' if shape != () else 'ndarray0d'
     if kind == 'tensor' or (kind == 'elem' and ekind == 'tensor'):
         sp = odl.tensor_space(shape, dtype=dt)
         return sp.element(arr), ref, 'tensor' if ekind == 'discr' else 'elem'
     if ekind == 'discr':
         if shape == _sd_shape(sd):
-            sp = build.build_space(_with_dtype(sd, dt))
+            sp = build.build_space(_with_dtype(sd, dt, plain=True))
         else:
             sp = odl.uniform_discr([0.0] * len(shape), [1.0] * len(shape),
                                    shape, dtype=dt)
         return sp.element(arr), ref, 'elem'
-    # power space: stack of parts
-    if len(shape) < 2:
+    # power space: the same space with the result dtype if the shape is
+    # unchanged, otherwise a power space of tensor spaces of that shape
+    if shape == _sd_shape(sd):
+        sp = build.build_space(_with_dtype(sd, dt, plain=True))
+    elif len(shape) < 2:
         sp = odl.ProductSpace(odl.tensor_space((), dtype=dt), shape[0])
     else:
         sp = odl.ProductSpace(odl.tensor_space(shape[1:], dtype=dt),
@@ -1085,7 +1111,9 @@ def _run_ufunc(desc):
     except Exception as e:  # noqa - classified below
         odl_exc = e
 
-    strata.append('dt:' + sig.dt)
+    strata.append('dt:' + sig.dt.rstrip('<'))
+    if sig.dt.endswith('<'):
+        strata.append('dt-narrow')
     if np_exc is not None:
         strata.append('np-rejects:' + ('odl-rejects' if odl_exc is not None
                                        else 'odl-accepts'))
@@ -1300,7 +1328,7 @@ def _compare_result(sig, desc, i, g, r, o_odl, o_ref, x, ops, kw, strata):
                             [(e[0], e[1], len(e[2])) for e in exp]))
         if method in ('__call__', 'legacy', 'accumulate') and \
                 r.dtype == np.dtype(x.dtype) and uf.nout == 1 and \
-                g.space != x.space:
+                r.dtype.kind in 'fc' and g.space != x.space:
             raise Violation(sig('space', tail),
                             'dtype and shape unchanged but result space '
                             '{!r} != {!r}'.format(g.space, x.space))
